@@ -219,3 +219,30 @@ __CPROVER_ensures((T_(self)->_transit_event_buffer->g_size == 0 && T_(self)->g_q
     dropped=['asserts (NDEBUG)', 'union access to the bounded/unbounded queue (one abstract emptiness query)'],
     trusted=['context cache abstracted to {one tracked context, one representative}', 'queue.empty() under sequentially consistent semantics (its meaning: BQ.empty / UQ.empty)', 'the cache refresh itself: units TCM.register / BW.update_cache'], min_obligations=20)
 UNITS.append(queues_empty)
+
+# ------------------------------------------------------------------------------------------ the for_each_thread_context lambda of _update_active_thread_contexts_cache
+UL_PRELUDE = HP_PRELUDE.replace('typedef struct BW { CVec _active_thread_contexts_cache; } BW;', 'typedef struct Options { size_t transit_event_buffer_initial_capacity; } Options;\ntypedef struct BW { CVec _active_thread_contexts_cache; Options _options; } BW;') + r'''
+size_t g_pushes, g_buffer_makes; TCx* g_pushed; size_t g_made_capacity;
+void CACHE_push_back(BW* self, TCx* tc) __CPROVER_assigns(g_pushes, g_pushed) __CPROVER_ensures(g_pushes == OLD(g_pushes) + 1 && g_pushed == tc);
+/* std::make_shared<TransitEventBuffer>(capacity): a fresh, empty buffer (unit TEB.ctor) */
+TEBs* TEB_make(size_t capacity) __CPROVER_assigns(g_buffer_makes, g_made_capacity) __CPROVER_ensures(__CPROVER_is_fresh(RET, sizeof(TEBs)) && RET->g_size == 0 && g_buffer_makes == OLD(g_buffer_makes) + 1 && g_made_capacity == capacity);
+'''
+assert UL_PRELUDE != HP_PRELUDE
+update_cache_lambda = dict(
+    name='BW.update_cache_lambda', primary='C20', props={'C20', 'C03'}, kind='S',
+    desc='the for_each_thread_context lambda of BackendWorker::_update_active_thread_contexts_cache: EVERY registered context - also one whose thread has exited - gets a backend buffer and is put in the cache exactly once (reading, draining and reclaiming all go through the cache)',
+    structs=[], prelude=UL_PRELUDE, enforce='BW_update_cache_lambda', replace=['CACHE_push_back', 'TEB_make'],
+    funcs=[dict(src=dict(header=H, cls='BackendWorker', name='_update_active_thread_contexts_cache', lambda_after=r'for_each_thread_context\s*\(\s*\[this\]\(ThreadContext\* thread_context\)'),
+                cfun='BW_update_cache_lambda', sig='void BW_update_cache_lambda(BW* self, TCx* thread_context)', cls_c='BW', member_fields=['_active_thread_contexts_cache', '_options'],
+                methods=TC_METHODS, pre_rules=Q_RULES + [(r'std::make_shared<TransitEventBuffer>\(([^()]*)\)', r'TEB_make(\1)'), (r'_active_thread_contexts_cache\.push_back\(thread_context\)', 'CACHE_push_back(self, thread_context)')],
+                auto_helpers=dict(typemap={'ThreadContext*': 'TCx*', 'ThreadContext const*': 'TCx*'}),
+                contract=r'''
+__CPROVER_requires(__CPROVER_is_fresh(self, sizeof(*self)) && __CPROVER_is_fresh(thread_context, sizeof(TCx)) && (thread_context->_transit_event_buffer == NULL || __CPROVER_is_fresh(thread_context->_transit_event_buffer, sizeof(TEBs))) && thread_context->_queue_type <= QT_BoundedDropping && g_pushes == 0 && g_buffer_makes == 0)
+__CPROVER_assigns(thread_context->_transit_event_buffer, g_pushes, g_pushed, g_buffer_makes, g_made_capacity)
+__CPROVER_ensures(g_pushes == 1 && g_pushed == thread_context) /*@ C20,C03 "every registered thread context is in the backend's cache after a reload, exactly once - whether its thread is alive or has exited, whether anything is pending or not (an exited thread's context can only be drained and reclaimed from the cache)" */
+__CPROVER_ensures(thread_context->_transit_event_buffer != NULL && (OLD(thread_context->_transit_event_buffer) != NULL ==> (thread_context->_transit_event_buffer == OLD(thread_context->_transit_event_buffer) && g_buffer_makes == 0))) /*@ C03 "a context in the cache has a backend buffer; an existing buffer (with its events) is kept" */
+__CPROVER_ensures(OLD(thread_context->_transit_event_buffer) == NULL ==> (g_buffer_makes == 1 && g_made_capacity == self->_options.transit_event_buffer_initial_capacity))
+''')],
+    harness='  BW* s; TCx* t; BW_update_cache_lambda(s, t);',
+    dropped=['shared_ptr ownership of the buffer'], trusted=['for_each_thread_context visits every registered context under the registry lock (hand-off: units TCM.register / BW.update_cache)'], min_obligations=10)
+UNITS.append(update_cache_lambda)
